@@ -22,6 +22,8 @@ EXPLANATION = (
     "comparison builtins </=</>/>=/=:=/=\\= apply the Python operator of the same meaning to the computed values in argument order. "
     "A8 length/2, per call mode of its check_mode table: in the modes whose list argument is partial ('l' open list, 'v' unbound) every answer is a "
     "closed list built by build_list(.., Term('[]')) (the tail gets bound), in the proper-list modes the list is returned unchanged. "
+    "A9 succ/2 and plus/3, per call mode of their check_mode tables and folded on sample tuples inside and outside the relation: the all-bound mode succeeds "
+    "exactly on tuples of the relation (B = A + 1; C = A + B), each generating mode computes the free argument so that the relation holds. "
     "A4 (error conversion) is decided under C27/E4. Numeric results for all operands and float formatting are value-level and not decided."
 )
 TECHNIQUE = "static analysis: documentation/table agreement, abstract operator semantics vs frozen Prolog table, call-mode table consistency"
@@ -349,7 +351,88 @@ def rule_a8(repo, col):
     col.floor("A8.length_answers", n, 4)
 
 
+# relation builtins: name -> (relation over the integer arguments, tuples in the relation, tuples outside it)
+RELATIONS = {
+    "_builtin_succ": ("succ(A, B): B = A + 1", lambda a, b: b == a + 1, [(2, 3), (0, 1)], [(3, 2), (2, 2), (2, 4)]),
+    "_builtin_plus": ("plus(A, B, C): C = A + B", lambda a, b, c: a + b == c, [(2, 3, 5), (4, 0, 4)], [(2, 3, 6), (5, 3, 2), (2, 5, 3)]),
+}
+
+
+def rule_a9(repo, col):
+    """succ/2 and plus/3 decide and generate the same relation in every call mode (folded on sample tuples)"""
+    from .. import dtable, modes
+    from ..astutil import const_value
+
+    MOD = "problog.engine_builtin"
+    n = 0
+    for fname, (text, rel, good, bad) in sorted(RELATIONS.items()):
+        f = repo.func(MOD, fname)
+        m = f.module
+        sites = [s_ for s_ in modes.sites(repo, [MOD]) if s_.func is f]
+        if len(sites) != 1 or sites[0].modes is None:
+            raise AnalysisError("%s: check_mode site not understood" % fname)
+        site = sites[0]
+        call_src = norm(site.call)
+        k = len(site.modes[0])
+        params = f.params[:k]
+        paths = dtable.extract(f.node, opaque_loops=True)
+        for i, md in enumerate(site.modes):
+            bound = [c_ not in ("v",) for c_ in md]
+            for tup, member in [(t_, True) for t_ in good] + [(t_, False) for t_ in bad]:
+                if not all(bound) and not member:
+                    continue  # generating modes are checked on members only (the free argument is computed)
+                mapping = [(call_src, i)] + [("int(%s)" % params[j], tup[j]) for j in range(k) if bound[j]]
+                ps = dtable.compatible(paths, mapping)
+                ps = [p_ for p_ in ps if all(dtable.eval_atom(s_, mapping, None) is not None for s_, _, _ in p_.conds)]
+                if len(ps) != 1 or ps[0].end != "return":
+                    raise AnalysisError("%s: %d decided paths in mode %r for %s" % (fname, len(ps), md, tup))
+                val = ps[0].value
+                n += 1
+                if val == "[]":
+                    answers = []
+                else:
+                    try:
+                        e = ast.parse(val, mode="eval").body
+                    except SyntaxError:
+                        raise AnalysisError("%s: return value not parseable" % fname)
+                    if not (isinstance(e, ast.List) and len(e.elts) == 1 and isinstance(e.elts[0], ast.Tuple) and len(e.elts[0].elts) == k):
+                        raise AnalysisError("%s: return value not understood: %s" % (fname, val[:80]))
+                    ans = []
+                    for j, el in enumerate(e.elts[0].elts):
+                        if isinstance(el, ast.Name) and el.id == params[j] and bound[j]:
+                            ans.append(tup[j])
+                        elif isinstance(el, ast.Call) and dotted(el.func) == "Constant" and len(el.args) == 1:
+                            txt = dtable_text(norm(el.args[0]), mapping)
+                            okf, v = const_value(ast.parse(txt, mode="eval").body)
+                            if not okf:
+                                raise AnalysisError("%s: generated argument not foldable: %s" % (fname, norm(el.args[0])))
+                            ans.append(v)
+                        else:
+                            raise AnalysisError("%s: answer component not understood: %s" % (fname, norm(el)))
+                    answers = [tuple(ans)]
+                if all(bound):
+                    ok = (answers == [tup]) if member else (answers == [])
+                    what = "%s %s the relation" % (tup, "is in" if member else "is not in")
+                else:
+                    ok = len(answers) == 1 and rel(*answers[0]) and all(answers[0][j] == tup[j] for j in range(k) if bound[j])
+                    what = "the free argument of %s is computed from the bound ones" % (tuple(tup[j] if bound[j] else "_" for j in range(k)),)
+                col.decide("A9", m, f.node, ok, "%s, mode %r: %s" % (text, md, what),
+                           "%s in mode %r answers %s for the arguments %s: %s" % (text, md, answers, tuple(tup[j] if bound[j] else "_" for j in range(k)),
+                                                                               "it must succeed exactly on the tuples of the relation and generate the missing argument so that the relation holds"),
+                           construct="%s: mode %s, arguments %s" % (fname, md, tuple(tup[j] if bound[j] else "_" for j in range(k))), function=fname)
+    col.floor("A9.relation_cases", n, 12)
+
+
+def dtable_text(src, mapping):
+    from .. import dtable
+
+    e = ast.parse(src, mode="eval").body
+    e = dtable._Scenario([(norm(ast.parse(k_, mode="eval").body), v) for k_, v in mapping]).visit(e)
+    return norm(e)
+
+
 def run(repo, col):
+    col.rule("A9", "succ/2 and plus/3: one relation in every call mode")
     col.rule("A8", "length/2 answers are closed lists in the partial-list modes")
     col.rule("A1", "documented arithmetic functions/predicates exist in the dispatch table / builtin registry")
     col.rule("A2", "duplicate dispatch keys carry identical implementations")
@@ -364,3 +447,4 @@ def run(repo, col):
     rule_a6(repo, col)
     rule_a7(repo, col)
     rule_a8(repo, col)
+    rule_a9(repo, col)
